@@ -393,6 +393,7 @@ class Extractor {
       O["fn"] = fnKey(LE->getCallOperator());
       json::Array Caps;
       json::Array Inits;
+      json::Array ByCopy;
       auto InitIt = LE->capture_init_begin();
       for (const auto &C : LE->captures()) {
         const Expr *Init = (InitIt != LE->capture_init_end()) ? *InitIt : nullptr;
@@ -400,6 +401,17 @@ class Extractor {
         if (!C.capturesVariable()) continue;
         const auto *CV = C.getCapturedVar();
         Caps.push_back(CV->getNameAsString());
+        if (C.getCaptureKind() == LCK_ByCopy) {
+          if (const auto *VDc = dyn_cast<VarDecl>(CV)) {
+            if (!VDc->isInitCapture()) {
+              // captured by copy: the lambda keeps the value the variable has when the lambda is created
+              json::Object BC;
+              BC["name"] = VDc->getNameAsString();
+              BC["did"] = declId(VDc);
+              ByCopy.push_back(std::move(BC));
+            }
+          }
+        }
         if (const auto *VD = dyn_cast<VarDecl>(CV)) {
           if (VD->isInitCapture() && VD->getInit()) {
             // [name = expr]: the capture is a fresh variable initialised when the lambda is created
@@ -414,6 +426,7 @@ class Extractor {
       }
       O["captures"] = std::move(Caps);
       O["init_captures"] = std::move(Inits);
+      O["by_copy"] = std::move(ByCopy);
     } else if (const auto *NE = dyn_cast<CXXNewExpr>(S)) {
       O["k"] = "new";
       O["alloc_type"] = typeStr(NE->getAllocatedType());
